@@ -35,6 +35,9 @@ def f2_hits(rows):
                 done_intr[pend_intr.pop(r['t'])] = i
             elif e == 'Inv' and op == 'usleep':
                 sleep_inv[r['t']] = i
+            elif e == 'Resp' and op == 'yield' and r.get('r'):
+                if (r['t'], r['r']) in ready_intr:
+                    reported.add((r['t'], r['r']))     # thread_yield() reports the stored reason and leaves it in place
             elif e == 'Resp' and op == 'usleep' and r.get('r') == -1:
                 k = (r['t'], r['en'])
                 if (k in done_intr and done_intr[k] < sleep_inv.get(r['t'], -1)) or k in reported:
